@@ -211,6 +211,56 @@ func runC15(r *Report) {
 		o.OnlyAfterSuccess(rm, rm+"/sstables.SSTableStreamWriter.WriteNext/after-index-append", fn, "the index append", CallsIn(fn, indexWrite), "the state update", counters, nil)
 	}
 
+	// "a key was accepted" is encoded as lastKey != nil: every success path must leave it non-nil
+	{
+		key := rm + "/sstables.SSTableStreamWriter.WriteNext/lastKey-non-nil-after-success"
+		removed := map[Edge]bool{}
+		for _, b := range liveBlocks(fn) {
+			if v, _, nonNil, ok := nilTest(b); ok && isFieldLoad("sstables.SSTableStreamWriter", "lastKey")(v) {
+				removed[Edge{b, nonNil}] = true
+			}
+			for _, ins := range b.Instrs {
+				if st, ok := ins.(*ssa.Store); ok {
+					if n, ok := stateField(st.Addr); ok && n == "lastKey" {
+						if _, isMake := st.Val.(*ssa.MakeSlice); isMake {
+							for _, su := range b.Succs {
+								removed[Edge{b, su}] = true
+							}
+						}
+					}
+				}
+			}
+		}
+		bad := false
+		for _, w := range CallsIn(fn, indexWrite) {
+			succ, _ := errorEdges(w)
+			for _, e := range succ {
+				reach := reachFrom(e.To, removed)
+				for _, nr := range nilReturns(fn) {
+					if reach[nr.Block] {
+						// the return block itself may contain the allocating store
+						alloc := false
+						for _, ins := range nr.Block.Instrs {
+							if st, ok := ins.(*ssa.Store); ok {
+								if n, ok := stateField(st.Addr); ok && n == "lastKey" {
+									_, alloc = st.Val.(*ssa.MakeSlice)
+								}
+							}
+						}
+						if !alloc {
+							bad = true
+						}
+					}
+				}
+			}
+		}
+		if bad {
+			r.Bad(rm, key, fn.Pos(), "a successful write can leave lastKey nil (e.g. when the first accepted key is the empty key): the writer forgets that a key was accepted, so the next key is neither compared nor is MinKey kept")
+		} else {
+			r.OK(rm, key, fn.Pos(), "after a successful write lastKey is a non-nil buffer")
+		}
+	}
+
 	// R-rollback
 	const rb = "rollback"
 	r.Rule(rb, 2, "when the index append fails the data writer is rewound (Seek) to the size read before the data write, on every path from that failure to the return")
